@@ -240,7 +240,7 @@ def _gen_direct(rng, tier):
             ops.append(["pep", p["len"], p["time"], p["conf"], p["err"], p["vocab"], p["struct"], p["canary"]])
         elif o == "treg":
             lvl = rng.randrange(4)
-            act = lvl if rng.random() < 0.75 else rng.randrange(4)
+            act = lvl          # the watcher's own response table: NONE/IGNORE .. CRITICAL/SHUTDOWN
             ops.append(["treg", lvl, act, rng.choice([0, cfg["stab"], max(0, cfg["stab"] - 1), cfg["stab"] + 1]),
                         rng.choice([None, 0.0, 3599.9, 3600.0, 3600.1, 7200.0]), rng.random() < 0.4])
         else:
@@ -631,7 +631,8 @@ def run_system(plan, k):
                     w.unconfirmed = (t_resp.signal1 == Signal1.NON_SELF and t_resp.signal2 == Signal2.NONE)
             # model update
             if z == "inside":
-                w.streak = 0
+                if t_resp is not None:      # the watcher saw the clean fingerprint; an answer that by-passed it
+                    w.streak = 0            # leaves the harness count as it is (it is only an upper bound)
             elif z in ("outside", "edge"):
                 w.streak = streak
                 w.max_streak = max(w.max_streak, streak)
